@@ -33,6 +33,21 @@ Check C05_sequence_is_last : forall evs e b,
   bseq (fold_left update (evs ++ [e]) b) = event_seq e.
 Check C05_manager_routes : forall evs bs i d, (i < length bs)%nat ->
   nth i (fold_left mgr_step evs bs) d = fold_left update (route i evs) (nth i bs d).
+Check C05_upsert_algebra : forall s l,
+  strict_sorted s l = true ->
+  (forall p a1 a2,
+     upsert_single s (upsert_single s l (p, a1)) (p, a2) = upsert_single s l (p, a2)) /\
+  (forall x y, fst x <> fst y ->
+     upsert_single s (upsert_single s l x) y = upsert_single s (upsert_single s l y) x) /\
+  (forall p, lookup l p = None -> upsert_single s l (p, 0%Z) = l) /\
+  (forall p a, lookup l p = None -> upsert_single s (upsert_single s l (p, a)) (p, 0%Z) = l) /\
+  (forall lvs1 lvs2,
+     (forall p, spec_upsert (lookup l) lvs1 p = spec_upsert (lookup l) lvs2 p) ->
+     upsert s l lvs1 = upsert s l lvs2).
+Check C05_heartbeat_and_snapshot : forall b b' sq t bs as_,
+  (bids (update b (Update sq t [] [])) = bids b /\ asks (update b (Update sq t [] [])) = asks b /\
+   bseq (update b (Update sq t [] [])) = sq /\ btime (update b (Update sq t [] [])) = t) /\
+  update b (Snapshot sq t bs as_) = update b' (Snapshot sq t bs as_).
 Check C05_oracle_sound : forall c, wf_case c = true -> corr_b c = true -> prop_b c = true.
 (* the definitions the statements rest on, pinned by evaluation *)
 Check eq_refl : upsert_single Bid [(5, 1); (3, 1)]%Z (4, 2)%Z = [(5, 1); (4, 2); (3, 1)]%Z.
